@@ -127,6 +127,10 @@ class KT:
         self.fields = state_fields(ctx)
         self.bodies = [b for b in ctx.bodies_with_prefix(MOD) if "::tests::" not in b.path]
         self.impl_bodies = [ctx.body(p) for p in sorted(ctx.F.bodies) if p.startswith("<key_transforms::") is False and False]
+        # (a helper that does not exist on the pinned tree and has been spliced into every caller is analysed there, in
+        # the context it runs in -- not as a function of its own)
+        away = ctx.F.spliced_away
+        self.bodies = [b for b in self.bodies if b.path.split("::{closure")[0] not in away]
         self.fn_bodies = [b for b in self.bodies if "{closure" not in b.path]
         self._fx = {}
 
@@ -199,6 +203,12 @@ class KT:
                 src = args[0] if args else None
                 if isinstance(src, tuple) and src[0] == "call" and method_name(src[1]) == "map":
                     it, clos = src[2]
+                    if isinstance(clos, tuple) and clos[0] == "const" and isinstance(clos[1], tuple) and clos[1][0] == "fn" and clos[1][1].rsplit("::", 2)[-2:-1] == ["Event"]:
+                        # .map(Released) / .map(Pressed): the variant constructor itself is the mapping function
+                        base = it[1] if isinstance(it, tuple) and it[0] == "iter" else it
+                        effs.append(Eff("MAPEMIT", list_of(base) if list_of(base) is not None else show(base)[:40],
+                                        T("mapelem", it), aux=(clos[1][1].rsplit("::", 1)[-1], it, e.c), ev=e, pos=pos))
+                        continue
                     if isinstance(clos, tuple) and clos[0] == "closure":
                         cps, cb = mir.walk_closure(self.ctx.body, clos, param_terms=[T("mapelem", it)])
                         rets = [q.outcome[1] for q in cps if q.outcome[0] == "return"]
